@@ -173,15 +173,29 @@ fn sorted_strict(v: &[String]) -> bool {
     v.windows(2).all(|w| w[0] < w[1])
 }
 
+/// wide tables: more than 16 kinds of unary and of binary operators in one expression (beyond the
+/// inline capacity of the listings)
+fn cfg_wide() -> CaseCfg {
+    CaseCfg {
+        table: TableCfg { max_bin: 34, max_un: 17, max_const: 3, ..TableCfg::default() },
+        tree: TreeCfg { max_operands: 90, lit_pct: 25, unary_pct: 35, ..TreeCfg::default() },
+        render: RenderCfg { redundant_paren_pct: 4, ..RenderCfg::default() },
+        max_vars: 5,
+        weird_pct: 5,
+    }
+}
 fn listings(tape: &[u32], st: &mut Stats) -> CaseResult {
     let mut t = Tape::new(tape);
-    let case = gen_term_case(&mut t, &cfg_small());
+    let wide = t.chance(12);
+    let case = gen_term_case(&mut t, &if wide { cfg_wide() } else { cfg_small() });
     let text: &str = &case.text;
     let (mut un_all, mut bin_all, mut un_var, mut bin_var) = (BTreeSet::new(), BTreeSet::new(), BTreeSet::new(), BTreeSet::new());
     ops_in_tree(&case.tree, &case.table, &mut un_all, &mut bin_all);
     ops_on_vars(&case.tree, &case.table, &mut un_var, &mut bin_var);
     let const_sub = has_constant_subexpr(&case.tree);
     st.class_if(const_sub, "tree has a variable-free sub-expression with an operator");
+    st.class_if(bin_all.len() > 16, "more than 16 kinds of binary operators in the expression");
+    st.class_if(un_all.len() > 16, "more than 16 kinds of unary operators in the expression");
     st.class_if(!un_all.is_empty() && !bin_all.is_empty(), "unary and binary operators present");
     type L = (Vec<String>, Vec<String>, Vec<String>);
     fn lists<'a, E: Express<'a, Term>>(e: &E) -> L {
@@ -356,8 +370,8 @@ pub fn def() -> PropDef {
             },
             SubCheck {
                 name: "listings",
-                rule: "tape -> table x tree x rendering; unary_reprs/binary_reprs/operator_reprs of flat, unfolded flat, deep, flat->deep, deep->flat: strictly ascending, operator_reprs = union, superset of operators applied to variable-dependent operands, subset of operators in the tree, all equal if the tree has no variable-free sub-tree with an operator; non-trivial = unary and binary operators present and no such sub-tree",
-                kind: Kind::Tape { len: 400, quick: 30_000, thorough: 1_500_000, f: listings },
+                rule: "tape -> table x tree x rendering (12% wide: tables of up to 34 binary + 17 unary operators, trees of up to 90 operands, so that more than 16 kinds of operators occur); unary_reprs/binary_reprs/operator_reprs of flat, unfolded flat, deep, flat->deep, deep->flat: strictly ascending, operator_reprs = union, superset of operators applied to variable-dependent operands, subset of operators in the tree, all equal if the tree has no variable-free sub-tree with an operator; non-trivial = unary and binary operators present and no such sub-tree",
+                kind: Kind::Tape { len: 1500, quick: 30_000, thorough: 1_500_000, f: listings },
             },
             SubCheck {
                 name: "convert_soup",
